@@ -106,7 +106,7 @@ def gen_name(r, hostile):
 
 
 def gen_tree(r, bs=4096, nfiles=8, ndirs=3, hostile=False, specials=True, xattrs=False, hardlinks=False,
-             big=False, ids=None, bigdir=0):
+             big=False, ids=None, bigdir=0, bigdir_dense=False):
     """returns list of Entry (directories before their children)"""
     ents = []
     ids = ids or [0, 0, 1, 1000, 65534, 70000, 0xFFFFFFFE]
@@ -146,6 +146,10 @@ def gen_tree(r, bs=4096, nfiles=8, ndirs=3, hostile=False, specials=True, xattrs
         parent = fresh(b"")
         ents.append(Entry(parent, DIR, **common()))
         for i in range(bigdir):
+            if bigdir_dense:
+                # short names + 20 byte inodes: many entries per metadata block, so the 256-entries-per-header limit is what splits
+                ents.append(Entry(parent + b"/" + ("e%05d" % i).encode(), FIFO, **common()))
+                continue
             nm = ("e%05d" % i + "x" * r.choice([0, 0, 0, 20, 200])).encode()
             ents.append(Entry(parent + b"/" + nm, r.choice([FILE, FIFO, SLINK]), content=None, **common()))
             e = ents[-1]
@@ -247,6 +251,14 @@ def emit_xattr_file(ents, root, name="xattr.txt"):
 def emit_dir(ents, root):
     """materialise the tree under root (as root: mknod/chown/xattrs work on tmpfs)"""
     os.makedirs(root, exist_ok=True)
+    try:
+        _emit_dir(ents, root)
+    finally:
+        os.chmod(root, 0o755)
+        os.utime(root, (11, 11))
+
+
+def _emit_dir(ents, root):
     later = []
     for e in ents:
         p = os.path.join(os.fsencode(root), e.path)
@@ -273,6 +285,9 @@ def emit_dir(ents, root):
         later.append((p, e))
     for p, e in reversed(later):
         if e.mode is None:
+            # implied directory: give it fixed, comparable attributes
+            os.chmod(p, 0o755)
+            os.utime(p, (7, 7))
             continue
         os.lchown(p, e.uid, e.gid)
         if e.type != SLINK:
@@ -293,8 +308,8 @@ def expected_packfile(ents, def_mtime=0, defaults=None, force_uid=None, force_gi
     dfl = {"uid": 0, "gid": 0, "mode": 0o755, "mtime": def_mtime}
     if defaults:
         dfl.update(defaults)
-    out = {b"": ("dir", dfl["mode"], dfl["uid"] if force_uid is None else force_uid,
-                 dfl["gid"] if force_gid is None else force_gid, dfl["mtime"], None, ())}
+    # --set-uid/--set-gid override what the pack file lines specify; the root and implied directories take --defaults
+    out = {b"": ("dir", dfl["mode"], dfl["uid"], dfl["gid"], dfl["mtime"], None, ())}
     groups = []
     bypath = {e.path: e for e in ents}
 
@@ -307,9 +322,7 @@ def expected_packfile(ents, def_mtime=0, defaults=None, force_uid=None, force_gi
     for e in ents:
         implied(e.path)
         if e.type == DIR and not e.explicit:
-            if e.path not in out:
-                out[e.path] = ("dir", dfl["mode"], dfl["uid"], dfl["gid"], dfl["mtime"], None, ())
-            continue
+            continue    # exists only if something below it is listed (handled by implied())
         if e.type == LINK:
             groups.append((e.path, e.target))
             continue
@@ -332,9 +345,11 @@ def compare_tree(expected, groups, img_summary):
     """expected from expected_packfile, img_summary from sqfsdec.tree_summary. returns list of differences"""
     diffs = []
     exp = dict(expected)
-    for link, tgt in groups:
-        if tgt in exp:
-            exp[link] = exp[tgt]
+    copies = [g for g in groups if len(g) == 3]
+    groups = [g[:2] for g in groups if len(g) == 2]
+    for g in copies + groups:
+        if g[1] in exp:
+            exp[g[0]] = exp[g[1]]
     for p in sorted(set(exp) | set(img_summary)):
         if p not in img_summary:
             diffs.append("missing in image: %r" % p)
@@ -359,3 +374,43 @@ def compare_tree(expected, groups, img_summary):
             if img_summary[link][7] != img_summary[tgt][7]:
                 diffs.append("hard link %r -> %r: different inode numbers" % (link, tgt))
     return diffs
+
+
+def expected_packdir(ents, keep_time=True, def_mtime=0, with_xattrs=False, force_uid=None, force_gid=None, hardlinks=True):
+    """expected image tree for gensquashfs --pack-dir over emit_dir(ents)"""
+    out = {b"": ("dir", 0o755, 0 if force_uid is None else force_uid, 0 if force_gid is None else force_gid,
+                 11 if keep_time else def_mtime, None, ())}
+    groups = []
+
+    def mt(v):
+        return v if keep_time else def_mtime
+
+    for e in ents:
+        p = e.path
+        while p:
+            p = os.path.dirname(p)
+            if p and p not in out:
+                out[p] = ("dir", 0o755, 0 if force_uid is None else force_uid, 0 if force_gid is None else force_gid, mt(7), None, ())
+    for e in ents:
+        if e.type == DIR and not e.explicit:
+            out[e.path] = ("dir", 0o755, 0 if force_uid is None else force_uid, 0 if force_gid is None else force_gid, mt(7), None, ())
+            continue
+        if e.type == LINK:
+            if hardlinks:
+                groups.append((e.path, e.target))
+            else:
+                groups.append((e.path, e.target, "copy"))
+            continue
+        uid = e.uid if force_uid is None else force_uid
+        gid = e.gid if force_gid is None else force_gid
+        extra = None
+        if e.type == FILE:
+            extra = e.content
+        elif e.type == SLINK:
+            extra = e.target
+        elif e.type in (CHR, BLK):
+            extra = (e.dev[0] << 8) | (e.dev[1] & 0xFF) | ((e.dev[1] & ~0xFF) << 12)
+        mode = 0o777 if e.type == SLINK else e.mode
+        xa = tuple(sorted(e.xattrs.items())) if with_xattrs else ()
+        out[e.path] = (e.type, mode, uid, gid, mt(e.mtime), extra, xa)
+    return out, groups
